@@ -15,3 +15,7 @@ UNITS += [VIO.unit_reader_rows(), ER.unit_location_copy_and_str()]
 UNITS += [VIO.unit_raw_rows().also("C04"), VIO.unit_c04_sweep()]
 from contracts import rowio_delim as RD, rowio_fixed as FX
 UNITS += [RD.unit_delimited_rows().also("C04"), FX.unit_fixed_rows().also("C04")]
+from contracts import checks as CK
+UNITS += [CK.unit_is_unique_check_row().also("C04"), CK.unit_distinct_count().also("C04")]
+from props import _groups as _G
+UNITS = _G.with_groups(PROPERTY, UNITS, _G.READERS, _G.VALIDATION, _G.CHECKS)
